@@ -702,7 +702,9 @@ int main(int argc, char ** argv)
       R.SetDeadline(now + std::max(5.0, share));
       const size_t v0 = res.violations.size();
       verif::Part & part = R.Run(pd.total, fn, desc);
-      for (size_t v = v0; v < res.violations.size(); v++) res.violations[v].key = NormalizeKey(pd.name, res.violations[v].key);
+      { std::map<std::string, int> perKey; std::vector<verif::Violation> kept(res.violations.begin(), res.violations.begin() + v0);   // normalise keys; keep at most 3 violations (replays) per normalised key
+        for (size_t v = v0; v < res.violations.size(); v++) { verif::Violation x = res.violations[v]; x.key = NormalizeKey(pd.name, x.key); if (perKey[x.key]++ < 3) kept.push_back(x); }
+        res.violations.swap(kept); }
       if (!part.exhaustive && part.transitions >= pd.total) { part.exhaustive = true; part.cap = ""; }   // engine quirk: a fatal case at the very end of a stride leaves its "complete" flag false although every index was run
       if (part.exhaustive) { part.transitions -= std::min<uint64_t>(part.transitions, pd.pairsSkipped); part.evaluations = part.transitions; }   // skipped pairs are not executions
       part.extra["pair_cases_skipped_because_one_component_is_fatal_alone"] = verif::Fmt("%llu", (unsigned long long)pd.pairsSkipped);
@@ -719,6 +721,7 @@ int main(int argc, char ** argv)
       done++;
    }
    res.observations.push_back(verif::Fmt("allocation calibration on the valid seeds of the four Message parsers (pools warm): max requested bytes during one parse = %lld, max ratio requested/N = %.1f (%s); asserted bound a=%lld, K=%lld", calMaxPeak, calMaxRatio, calWorst.c_str(), kAllocA, kAllocK));
+   res.observations.push_back("unspecified behaviour observed, not asserted: (1) MMUnflattenMessage accepts an encoding with two fields of the same name and builds an MMessage with duplicate field names; (2) gateway classes without their own Reset() override (WebSocket, packet tunnels) are exercised for reuse after Reset() but a failure to deliver the valid stream afterwards is only noted in the part's extra.notes");
    res.observations.push_back("environment assumption: a single malloc above 64 MiB fails (ASAN_OPTIONS max_allocation_size_mb=64, set by re-exec) and a single operator-new request above max(4 MiB, 64*N) fails while a parser runs; the request is still counted by the meter");
    const int rc = res.Write(args);
    g_parts.clear(); g_gw.clear();   // release the seed Messages before the library's static object pools are destroyed
